@@ -16,8 +16,10 @@ def dec(fr):
     return dict(edst=fr[0:6], esrc=fr[6:12], etype=(fr[12] << 8) | fr[13], ver=fr[14], tos=fr[15], res=fr[16], opc=fr[17],
                 rdst=fr[18:24], rsrc=fr[24:30], seq=(fr[30] << 8) | fr[31], body=fr[32:])
 
+# every property type MS-LLTD defines for a Hello (not only those this responder emits today): (min, max) value bytes
 LEGAL = {1: (6, 6), 2: (4, 4), 3: (4, 4), 4: (1, 1), 5: (6, 6), 6: (0, 32), 7: (4, 4), 8: (16, 16), 9: (2, 2), 10: (8, 8),
-         12: (4, 4), 13: (4, 4), 14: (0, 0), 15: (0, 32), 17: (0, 0), 20: (4, 4)}
+         12: (4, 4), 13: (4, 4), 14: (0, 0), 15: (0, 32), 16: (0, 64), 17: (0, 0), 18: (16, 16), 19: (0, 200), 20: (4, 4),
+         21: (1, 1), 22: (0, 0), 24: (0, 0), 25: (2, 2), 26: (0, 0), 27: (0, 36), 28: (0, 0)}
 
 def parse_tlvs(b):
     """-> list of (type, value) or None; the end marker must be the last byte"""
